@@ -1,10 +1,10 @@
 package main
 
 import (
-	"regexp"
 	"encoding/json"
 	"fmt"
 	"reflect"
+	"regexp"
 	"runtime/debug"
 	"strings"
 
@@ -275,12 +275,13 @@ func init() {
 			}
 			unit := 0
 			states := map[string]bool{}
-			var rec func(prefix []int)
-			rec = func(prefix []int) {
-				if r.Exhaustive == false {
-					return
-				}
+			// iterative deepening on the prefix length: every prefix of length 1, then of length
+			// 2, ... so that a deadline cuts the deepest level, never a whole first operation
+			observe := func(prefix []int) {
 				for _, last := range obsOps {
+					if r.Exhaustive == false {
+						return
+					}
 					if c.Expired() {
 						r.Exhaustive = false
 						return
@@ -298,19 +299,32 @@ func init() {
 						states[st] = true
 					}
 				}
-				if len(prefix) < p && len(prefix) > 0 {
-					for oi := range ops {
-						rec(append(append([]int{}, prefix...), oi))
-					}
+			}
+			var rec func(prefix []int, d int)
+			rec = func(prefix []int, d int) {
+				if r.Exhaustive == false {
+					return
+				}
+				if len(prefix) == d {
+					observe(prefix)
+					return
+				}
+				for oi := range ops {
+					rec(append(append([]int{}, prefix...), oi), d)
 				}
 			}
 			_ = unit
 			if c.Shard == 0 {
-				rec(nil) // the empty prefix: every observing op right after a reset (== solo by construction)
+				observe(nil) // the empty prefix: every observing op right after a reset (== solo by construction)
 			}
-			for oi := range ops {
-				if c.Mine(oi) {
-					rec([]int{oi})
+			for d := 1; d <= p; d++ {
+				for oi := range ops {
+					if c.Mine(oi) {
+						rec([]int{oi}, d)
+					}
+				}
+				if r.Exhaustive {
+					r.SetAdd("prefix_lengths_completed_by_some_shard", fmt.Sprint(d))
 				}
 			}
 			r.Distinct += int64(len(states))
